@@ -72,7 +72,7 @@ impl Prop for C19 {
         }
     }
     fn rule(&self) -> String {
-        "generated: 10 harness-defined blocks using #[derive(rustradio_macros::Block)] (sync 1->1, 1->2, 1->3, 2->1, 2->2, 2->3 with a distinct function per output; sync_tag 1->1 and 2->1; default+into fields; a non-sync block with generated new() over a copy and a non-copy output) under C08-style drip schedules with unequal input lengths and unequal free space per output. Oracle per work() call: steps = min(shortest input, smallest output space); every input loses exactly `steps`, every output gains exactly `steps`, the per-sample function runs exactly `steps` times, verdict Again; with steps = 0 nothing moves and the verdict names an empty input or a full output. Final outputs equal the per-port functions (so read ends come back in declaration order), tags follow the first input plus the block's own. eof() is enumerated over all input states. Non-trivial: some call saw unequal inputs or unequal output space; distinct = hash of the case.".into()
+        "generated: 10 harness-defined blocks using #[derive(rustradio_macros::Block)] (sync 1->1, 1->2, 1->3, 2->1, 2->2, 2->3 with a distinct function per output; sync_tag 1->1 and 2->1; default+into fields; a non-sync block with generated new() over a copy and a non-copy output) under C08-style drip schedules with unequal input lengths and unequal free space per output. Oracle per work() call: steps = min(shortest input, smallest output space); every input loses exactly `steps`, every output gains exactly `steps`, the per-sample function runs exactly `steps` times, verdict Again; with steps = 0 nothing moves and the verdict names an empty input or a full output. Final outputs equal the per-port functions (so read ends come back in declaration order), tags follow the first input plus the block's own (the 2->1 sync_tag block also forwards the tags of its second input under its own key). eof() is enumerated over all input states. Non-trivial: some call saw unequal inputs or unequal output space; distinct = hash of the case.".into()
     }
     fn assumptions(&self) -> Vec<String> {
         vec!["calls made after the harness dropped a stream end are not judged (buffered counts are unobservable then)".into()]
@@ -223,6 +223,14 @@ fn run_drip(case: &DripCase, ctx: &mut Ctx) {
         }
         if tagged && a[i] % 7 == 0 {
             want.push((i, DKEY.to_string(), TagValue::U64(a[i] as u64)));
+        }
+        if kind == 7 {
+            // T21 forwards the second input's tags of this sample under its own key
+            if let Some(bt) = prep.tags.get(1) {
+                for t in bt.iter().filter(|t| t.0 == i) {
+                    want.push((i, crate::derived::BKEY.to_string(), t.2.clone()));
+                }
+            }
         }
     }
     for j in 0..nsample_outs {
